@@ -4,10 +4,10 @@ import os
 from . import standard
 
 HEADER = """From Coq Require Import List ZArith NArith Floats. Import ListNotations.
-Require Import Clarabel.Base.Dyadic Clarabel.Term.Eval Clarabel.Solver.Skeleton Clarabel.Solver.Check Clarabel.Solver.Interior Clarabel.Solver.InteriorAll Clarabel.Solver.StepLen Clarabel.Solver.Route.
+Require Import Clarabel.Base.Dyadic Clarabel.Term.Eval Clarabel.Solver.Skeleton Clarabel.Solver.Check Clarabel.Solver.Interior Clarabel.Solver.InteriorAll Clarabel.Solver.StepLen Clarabel.Solver.Route Clarabel.Solver.Dims.
 Open Scope float_scope."""
 
-TARGETS = ["theories/Solver/Check.vo", "theories/Solver/Interior.vo", "theories/Solver/InteriorAll.vo", "theories/Solver/StepLen.vo", "theories/Solver/Route.vo"]
+TARGETS = ["theories/Solver/Check.vo", "theories/Solver/Interior.vo", "theories/Solver/InteriorAll.vo", "theories/Solver/StepLen.vo", "theories/Solver/Route.vo", "theories/Solver/Dims.vo"]
 
 ASSUMPTIONS = [
     "the numeric kernels are oracles of the loop model: theorems hold for every answer they can give, the run checks the implementation's control flow against the model on the answers it actually gave",
